@@ -222,3 +222,44 @@ func VH_c16_fp_memoize_concurrent() {
 	zz.Quiesce()
 	zz.Assert(n == 1 && r[0] == x && r[1] == x, "fp.Memoize runs once under concurrent use")
 }
+
+// A deferred computation whose first execution does not return normally (it panics and the requester recovers)
+// has still been executed: asking again must not run it a second time (sync.Once semantics).
+func VH_c16_run_once_after_panic() {
+	n := 0
+	try := func(f func()) {
+		defer func() { recover() }()
+		f()
+	}
+	x := zz.Int("x")
+	boom := zz.Bool("first.run.panics")
+	thunk := func() int {
+		n++
+		if boom {
+			panic("boom")
+		}
+		return x
+	}
+	switch zz.Choice("kind", 4) {
+	case 0:
+		fm := fp.Memoize(thunk)
+		try(func() { fm.Apply() })
+		try(func() { fm.Apply() })
+		zz.Assert(n == 1, "fp.Memoize: the thunk is executed at most once, also when its first execution panicked")
+	case 1:
+		mz := lazy.Memoize(thunk)
+		try(func() { mz() })
+		try(func() { mz() })
+		zz.Assert(n == 1, "lazy.Memoize: the thunk is executed at most once, also when its first execution panicked")
+	case 2:
+		c := lazy.Call(thunk)
+		try(func() { c.Get() })
+		try(func() { c.Get() })
+		zz.Assert(n == 1, "lazy.Call: the thunk is executed at most once, also when its first execution panicked")
+	case 3:
+		l := fp.MakeList(func() fp.Option[int] { return fp.Some(thunk()) }, func() fp.List[int] { return list.Empty[int]() })
+		try(func() { l.Head() })
+		try(func() { l.Head() })
+		zz.Assert(n == 1, "memoised list cell: the head is evaluated at most once, also when its first evaluation panicked")
+	}
+}
